@@ -268,6 +268,15 @@ func syncGen(r *Rng, tier string, emit func(string)) {
 				emit("give F " + strings.Join(hx, ","))
 			}
 		}
+		// the SERVING side: requests from peers that are two behind, exactly one behind, at and beyond the publisher's
+		// head, for one block and for a page
+		if hs, ok, _ := g.node("P").v.HeadBkSeq(); ok {
+			for _, last := range []int64{int64(hs) - 2, int64(hs) - 1, int64(hs), int64(hs) + 1} {
+				if last >= 0 {
+					emit("getblocks P " + u(uint64(last)) + " " + u(uint64([]int{1, 2, 20}[r.Intn(3)])))
+				}
+			}
+		}
 		if r.Chance(50) { // a later complete in-order delivery: the follower must then reach the publisher's head
 			deliver(chain)
 		}
